@@ -49,7 +49,10 @@ CLAIMED.update({
     "C06": (CHAN, "Every finalized rf@*.h5 of every history is inspected raw (index rows, dataset length, 14 stored attributes, uuid, "
             "sequence number) and judged by TLC (RowsOK, index denotation = written samples of that window, attributes = session "
             "parameters, sequence increasing); regeneration of drf_properties.h5 from each single data file is followed by the full "
-            "observation set and a new session, all validated against the unchanged specification state (RegenProps).", CHAN_NOTE, CHAN_TECH),
+            "observation set and a new session, all validated against the unchanged specification state (RegenProps). Recorders that are "
+            "killed and restarted on the same tree (DrfFs: a tmp. file of a dead process is never published), channels under long and "
+            "tmp.-named paths, session identifiers of several shapes and groups of channels handled by one process are part of every run.",
+            CHAN_NOTE, CHAN_TECH),
     "C07": (CHAN, "Product sweep element type x byte order x real/complex x subchannels x {continuous unchunked, continuous compressed} x gap "
             "layouts, plus random continuous histories: each stored element is classified data / fill / bad by bit comparison and TLC "
             "decides where fill is required or forbidden (Den, C07-* clauses), that a file exists iff one of its slots was written and "
@@ -58,8 +61,9 @@ CLAIMED.update({
             "E1: line-by-line TLA+ transcriptions of digital_rf_get_timestamp_floor / digital_rf_get_sample_ceil are checked by TLC against the "
             "exact definitions on the whole input space of a scaled machine (12 ps per second, 12-bit word: all admissible n/d, all k, all "
             "timestamps), with monotonicity and round trip. E3: the real C functions (ctypes on the freshly built extension) and "
-            "digital_rf.get_unix_time are called on the complete small scope and on biased full-magnitude draws; TLC decides every record with "
-            "exact base-10^4 limb arithmetic in multiplicative form, including the calendar.",
+            "digital_rf.get_unix_time are called (in a worker process, so that an input on which native code dies is named) on the complete "
+            "small scope, on biased full-magnitude draws and again beside a recording thread in the same process; TLC decides every record "
+            "with exact base-10^4 limb arithmetic in multiplicative form, including the calendar.",
             "Trusted: TLC, BigNat.tla (limb arithmetic), the limb encoder (Python big ints), ctypes access to the two C symbols (if a refactor "
             "removes them the check reports a machinery error rather than guessing). Full-magnitude inputs are decided on executed cases, "
             "not proved for all 2^160 inputs.", "TLA+ transcription model-checked on a scaled machine + TLC trace validation with exact limb arithmetic"),
@@ -83,16 +87,18 @@ CLAIMED.update({
             "with a crash at any point and a listing/opening reader; FinalComplete, FinalImmutable, CrashSafe hold only because of the action "
             "guards (enabling a forbidden step breaks them). E3: real recordings run in a subprocess that is stopped before every file-system "
             "operation; each stop is a crash point at which the tree is projected (every final file decoded, tmp names, properties file, "
-            "listing, readers) and a sample of them is really SIGKILLed; TLC validates the operation sequence against the protocol and "
-            "judges every snapshot.", FS_NOTE, FS_TECH),
+            "listing, readers) and a sample of them is really SIGKILLed, two of three kills being followed by a new recorder process on "
+            "the tree the dead one left (orphan tmp. files: probed, removed or created anew, never written or published); TLC validates "
+            "the operation sequence against the protocol and judges every snapshot.", FS_NOTE, FS_TECH),
     "C09": (FS, "Reader passes of a pool of long-lived DigitalRFReader objects (created at different moments of the recording) are taken between "
             "every two file-system operations of the writer; TLC requires each pass to succeed, to equal exactly the finalized files at that "
             "moment and never to shrink; E1 checks ReaderNeverFails / VisibilityMonotone over all interleavings of the protocol.",
             FS_NOTE + " The free-running part (writer and reader processes at full speed, no common clock; DrfLive / DrfLiveTrace) observes whatever interleavings the OS produces; the stepped schedule is the systematic one.", FS_TECH),
     "C10": (FS, "Every single-fault schedule of a recording (each operation failing with ENOSPC or EIO, once or persistently) is executed through "
             "the interposer; TLC validates the operation sequence and decides at the end: no unreadable or wrong final file, files finalized "
-            "before the fault unchanged, and - when an accepted sample is unreadable and a call was made after the failure - an error by the "
-            "faulted call or the next one, and refusal afterwards.", FS_NOTE, FS_TECH),
+            "before the fault unchanged, and - when an accepted sample is unreadable (through the channel's properties file) and a call was "
+            "made after the failure - an error by the faulted call or the next one, and refusal afterwards; one recording per run is so "
+            "large that failures happen inside H5Dwrite, one alternates rf_write / rf_write_blocks after the fault.", FS_NOTE, FS_TECH),
 })
 
 CLAIMED.update({
